@@ -1,11 +1,13 @@
 """C01 - general DTL reconciliation returns a minimum-cost reconciliation."""
 from collections import Counter
 
+from hypothesis import strategies as st
+
 from .. import gen, pkg
 from ..oracles import canon_solution, dtl_optimum, dtl_profiles
 from ..plain import INF, Instance
 from ..runner import Result, Violation
-from ..solver_common import leaf_move, set_leaf_species_inplace
+from ..solver_common import common_labels, leaf_move, reference, set_leaf_species_inplace, validate_output
 
 ID = "C01"
 LEVEL = "exploration"
@@ -49,8 +51,36 @@ EXHAUSTIVE_RULE = {
 EXHAUSTIVE_COMPLETE = False  # the random layer is not exhaustive
 
 
+@st.composite
+def _case(draw):
+    if gen.chance(draw, 1, 10):
+        # beyond brute force: 6..10 object leaves, 3..8 species leaves, decided by the memoised-recursion oracle
+        # (cross-checked against plain enumeration on every small case of C02/C03/C05 and wherever it still fits here)
+        case = draw(gen.rec_case(max_obj=10, max_sp=8, min_obj=6, min_sp=3, costs="coherent", labelled=False))
+        case["_large"] = True
+        return case
+    return draw(gen.rec_case(max_obj=5, max_sp=6, costs="coherent", labelled=False))
+
+
 def strategy(tier):
-    return gen.rec_case(max_obj=5, max_sp=6, costs="coherent", labelled=False)
+    return _case()
+
+
+def check_large(case):
+    inst = Instance(case)
+    labels = common_labels(inst, labelled=False) + ["large"]
+    opt, _ = reference(inst, "plain", want_set=False, labels=labels)
+    inp = pkg.make_input(case, labelled=False)
+    positive = all(inst.c[k] > 0 for k in ("DUPLICATION", "FULL_LOSS", "HORIZONTAL_TRANSFER"))
+    for policy in ("ANY", "ALL") if positive else ("ANY",):
+        outs = pkg.run_algo("thl", inp, policy)
+        if not outs:
+            raise Violation(f"thl.{policy}.empty", observed=0, expected=">=1 solution")
+        for out in outs[:200]:
+            _m, _lab, tot = validate_output(inst, out, "thl", policy)
+            if tot != opt:
+                raise Violation(f"thl.{policy}.cost!=oracle_min", observed=tot, expected=opt, extra={"mapping": _m, "size": "large"})
+    return Result(True, labels, evals=2 if positive else 1)
 
 
 def exhaustive(tier):
@@ -109,6 +139,8 @@ def _set_costs_inplace(inp, costs):
 
 
 def check(case):
+    if case.get("_large"):
+        return check_large(case)
     inst = Instance(case)
     profiles = profiles_for(inst, case)
     opt, sols, nvalid = dtl_optimum(inst, profiles)
